@@ -288,3 +288,130 @@ theorem LInv.run (key : Tid → κ) (init : κ → V) (sched : List Tid) : LInv 
   | cons t ts ih => intro s h; exact ih _ (LInv.step key init s t h)
 
 end GqlModel.Locks
+
+/-! ### lookup – compute outside the lock – store (PlanCache.Get) -/
+namespace GqlModel.Locks
+variable {κ V : Type} [DecidableEq κ]
+
+structure CInv (key : Tid → κ) (init : κ → V) (s : CState κ V) : Prop where
+  cell_init : ∀ k v, s.cell k = some v → v = init k
+  out_init : ∀ t v, s.out t = some v → v = init (key t)
+  loc_set : ∀ t, 3 ≤ s.pc t → s.pc t ≤ 4 → s.loc t = some (init (key t))
+  done_out : ∀ t, s.pc t = 5 → s.out t = some (init (key t))
+  crit_holds : ∀ t, s.pc t = 1 ∨ s.pc t = 4 → s.mu = some t
+
+omit [DecidableEq κ] in
+theorem CInv.initial (key : Tid → κ) (init : κ → V) : CInv key init (CState.init : CState κ V) := by
+  constructor <;> simp [CState.init]
+
+theorem CInv.step (key : Tid → κ) (init : κ → V) (s : CState κ V) (t : Tid) (inv : CInv key init s) :
+    CInv key init (cstep key init s t) := by
+  unfold cstep
+  split
+  next h0 =>
+    split
+    next hmu =>
+      have nobody : ∀ t', s.pc t' = 1 ∨ s.pc t' = 4 → False := by
+        intro t' h; have := inv.crit_holds t' h; rw [hmu] at this; cases this
+      refine ⟨inv.cell_init, inv.out_init, ?_, ?_, ?_⟩
+      · intro t' h3 h4; by_cases e : t' = t
+        · subst e; simp [upd] at h3
+        · simp only [upd_other _ _ e] at h3 h4; exact inv.loc_set t' h3 h4
+      · intro t' h; by_cases e : t' = t
+        · subst e; simp [upd] at h
+        · simp only [upd_other _ _ e] at h; exact inv.done_out t' h
+      · intro t' h; by_cases e : t' = t
+        · subst e; rfl
+        · simp only [upd_other _ _ e] at h; exact absurd (nobody t' h) id
+    next => exact inv
+  next h1 =>
+    have hmu : s.mu = some t := inv.crit_holds t (.inl h1)
+    have alone : ∀ t', t' ≠ t → s.pc t' = 1 ∨ s.pc t' = 4 → False := by
+      intro t' e h; have := inv.crit_holds t' h; rw [hmu] at this; exact e (Option.some.inj this).symm
+    split
+    next v hv =>
+      have hvi : v = init (key t) := inv.cell_init _ v hv
+      refine ⟨inv.cell_init, ?_, ?_, ?_, ?_⟩
+      · intro t' v' h; by_cases e : t' = t
+        · subst e; simp only [upd_same] at h; cases h; exact hvi
+        · simp only [upd_other _ _ e] at h; exact inv.out_init t' v' h
+      · intro t' h3 h4; by_cases e : t' = t
+        · subst e; simp [upd] at h4
+        · simp only [upd_other _ _ e] at h3 h4; exact inv.loc_set t' h3 h4
+      · intro t' h; by_cases e : t' = t
+        · subst e; simp [upd, hvi]
+        · simp only [upd_other _ _ e] at h ⊢; exact inv.done_out t' h
+      · intro t' h; by_cases e : t' = t
+        · subst e; simp [upd] at h
+        · simp only [upd_other _ _ e] at h; exact absurd (alone t' e h) id
+    next hnone =>
+      refine ⟨inv.cell_init, inv.out_init, ?_, ?_, ?_⟩
+      · intro t' h3 h4; by_cases e : t' = t
+        · subst e; simp [upd] at h3
+        · simp only [upd_other _ _ e] at h3 h4; exact inv.loc_set t' h3 h4
+      · intro t' h; by_cases e : t' = t
+        · subst e; simp [upd] at h
+        · simp only [upd_other _ _ e] at h; exact inv.done_out t' h
+      · intro t' h; by_cases e : t' = t
+        · subst e; simp [upd] at h
+        · simp only [upd_other _ _ e] at h; exact absurd (alone t' e h) id
+  next h2 =>
+    refine ⟨inv.cell_init, inv.out_init, ?_, ?_, ?_⟩
+    · intro t' h3 h4; by_cases e : t' = t
+      · subst e; simp [upd]
+      · simp only [upd_other _ _ e] at h3 h4 ⊢; exact inv.loc_set t' h3 h4
+    · intro t' h; by_cases e : t' = t
+      · subst e; simp [upd] at h
+      · simp only [upd_other _ _ e] at h; exact inv.done_out t' h
+    · intro t' h; by_cases e : t' = t
+      · subst e; simp [upd] at h
+      · simp only [upd_other _ _ e] at h; exact inv.crit_holds t' h
+  next h3 =>
+    split
+    next hmu =>
+      have nobody : ∀ t', s.pc t' = 1 ∨ s.pc t' = 4 → False := by
+        intro t' h; have := inv.crit_holds t' h; rw [hmu] at this; cases this
+      have hloc : s.loc t = some (init (key t)) := inv.loc_set t (by omega) (by omega)
+      refine ⟨inv.cell_init, inv.out_init, ?_, ?_, ?_⟩
+      · intro t' h3' h4; by_cases e : t' = t
+        · subst e; exact hloc
+        · simp only [upd_other _ _ e] at h3' h4; exact inv.loc_set t' h3' h4
+      · intro t' h; by_cases e : t' = t
+        · subst e; simp [upd] at h
+        · simp only [upd_other _ _ e] at h; exact inv.done_out t' h
+      · intro t' h; by_cases e : t' = t
+        · subst e; rfl
+        · simp only [upd_other _ _ e] at h; exact absurd (nobody t' h) id
+    next => exact inv
+  next h4 =>
+    have hmu : s.mu = some t := inv.crit_holds t (.inr h4)
+    have alone : ∀ t', t' ≠ t → s.pc t' = 1 ∨ s.pc t' = 4 → False := by
+      intro t' e h; have := inv.crit_holds t' h; rw [hmu] at this; exact e (Option.some.inj this).symm
+    have hloc : s.loc t = some (init (key t)) := inv.loc_set t (by omega) (by omega)
+    refine ⟨?_, ?_, ?_, ?_, ?_⟩
+    · intro k v h
+      by_cases ek : k = key t
+      · subst ek; simp [hloc] at h; exact h.symm
+      · simp [ek] at h; exact inv.cell_init k v h
+    · intro t' v' h; by_cases e : t' = t
+      · subst e; simp only [upd_same, hloc] at h; cases h; rfl
+      · simp only [upd_other _ _ e] at h; exact inv.out_init t' v' h
+    · intro t' h3 h4'; by_cases e : t' = t
+      · subst e; simp [upd] at h4'
+      · simp only [upd_other _ _ e] at h3 h4'; exact inv.loc_set t' h3 h4'
+    · intro t' h; by_cases e : t' = t
+      · subst e; simp [upd, hloc]
+      · simp only [upd_other _ _ e] at h ⊢; exact inv.done_out t' h
+    · intro t' h; by_cases e : t' = t
+      · subst e; simp [upd] at h
+      · simp only [upd_other _ _ e] at h; exact absurd (alone t' e h) id
+  next => exact inv
+
+theorem CInv.run (key : Tid → κ) (init : κ → V) (sched : List Tid) : CInv key init (crun key init sched) := by
+  unfold crun
+  suffices h : ∀ s, CInv key init s → CInv key init (sched.foldl (cstep key init) s) from h _ (CInv.initial key init)
+  induction sched with
+  | nil => intro s h; exact h
+  | cons t ts ih => intro s h; exact ih _ (CInv.step key init s t h)
+
+end GqlModel.Locks
